@@ -75,6 +75,7 @@ uint32_t crc_legacy(const uint8_t *p, size_t n);   /* historical sign-extending 
 
 /* ---- sizes ---- */
 /* word size in bytes for the alignment unit: rs_vand 2, xor 4, null 4, isa-l 1 */
+extern int ref_isal_word_bits;
 int ref_word_bytes(int backend);
 uint64_t ref_aligned_size(int backend, int k, uint64_t len);
 uint64_t ref_payload_size(int backend, int k, uint64_t len);
